@@ -260,14 +260,14 @@ func (m *Manager) open(closeGen uint64) {
 	err := m.connect(false, closeGen)
 	if err != nil {
 		m.cleanup()
-		m.maybeReconnectOnOpen()
+		m.maybeReconnectOnOpen(closeGen)
 	}
 }
 
-func (m *Manager) maybeReconnectOnOpen() {
+func (m *Manager) maybeReconnectOnOpen(closeGen uint64) {
 	reconnect := m.backoff.attempts() == 0 && !m.noReconnection
 	if reconnect {
-		m.reconnect(false)
+		m.reconnect(false, closeGen)
 	}
 }
 
@@ -307,6 +307,8 @@ func (m *Manager) cleanup() {
 
 func (m *Manager) onClose(reason Reason, err error) {
 	m.debug.Log("Closed. Reason", reason)
+	// (Read before `skipReconnect` is looked at, see `Close`.)
+	closeGen := m.closeGeneration()
 
 	m.cleanup()
 	m.backoff.reset()
@@ -321,21 +323,23 @@ func (m *Manager) onClose(reason Reason, err error) {
 	skipReconnect := m.skipReconnect
 	m.skipReconnectMu.RUnlock()
 	if !m.noReconnection && !skipReconnect {
-		go m.reconnect(false)
+		go m.reconnect(false, closeGen)
 	}
 }
 
 func (m *Manager) Close() {
 	m.debug.Log("Disconnecting")
 
+	// `skipReconnect` first, the generation second: a connection loss that is being handled right now either sees
+	// the flag, or it read the generation before it is incremented here (see `onClose` and `reconnect`).
+	m.skipReconnectMu.Lock()
+	m.skipReconnect = true
+	m.skipReconnectMu.Unlock()
+
 	m.stateMu.Lock()
 	m.state = clientConnStateDisconnected
 	m.closeGen++
 	m.stateMu.Unlock()
-
-	m.skipReconnectMu.Lock()
-	m.skipReconnect = true
-	m.skipReconnectMu.Unlock()
 
 	m.onClose(ReasonForcedClose, nil)
 
